@@ -580,6 +580,17 @@ fn judge(idx: u64, desc: &str, opt: &str, chk: &str, all: &[(String, String)], o
         Some(false) if !opt.starts_with("ok") && control_ok => out.violate(format!("control_failed:{shape_class}:{plan}"), format!("{desc}: {opt}"), detail.clone()),
         _ => {}
     }
+    // a run that succeeds although inputs were withheld must have derived every withheld value:
+    // its traces are then the control's traces; any other successful outcome was computed from
+    // values nobody supplied
+    if matches!(plan, "withholdpublic" | "withholdprivate" | "withholdboth" | "publiczerolen" | "privatezerolen") && opt.starts_with("ok") {
+        let control = all.iter().find(|(d, _)| d.starts_with(shape) && d.ends_with(" control")).map(|(_, o)| o.clone());
+        if let Some(c) = control {
+            if c.starts_with("ok") && c != *opt {
+                out.violate(format!("unsafe_success:{shape_class}:{plan}"), format!("{desc}: both builds report success with traces that differ from the fault-free control's ({opt} vs {c}): the run went on from values nobody supplied"), detail.clone());
+            }
+        }
+    }
     if plan == "control" && !opt.starts_with("ok") && !shape.starts_with("prog") {
         out.violate(format!("control_failed:{shape_class}"), format!("{desc}: fault-free control does not run: {opt}"), detail);
     }
